@@ -868,9 +868,9 @@ def plan(prop, tier, seed, known):
                                 disk=8000, extra=["-snapeach", "7", "-deleteall"]))
         jobs.append(probe_job(prop, av))
         jobs.append({"name": "exhaust", "module": "ExhaustTrace.tla", "cfg": "ExhaustTrace.cfg", "driver": ["exhaust", "-seed", str(seed)]})
-        jobs += design_jobs("Shrink", ["Shrink"], ["Shrink_big"], [("Shrink_reset", "NoOrphan"), ("Shrink_noresult", "Reclaimed")], q)
+        jobs += design_jobs("Shrink", ["Shrink", "Shrink_all"], ["Shrink_big"], [("Shrink_reset", "NoOrphan"), ("Shrink_noresult", "Reclaimed")], q)
         jobs += design_jobs("AllocTxn", ["AllocTxn"], [], [("AllocTxn_byte", "NeverTwice")], q)
-        jobs += design_jobs("BlockMap", ["BlockMap"], ["BlockMap_big"], [("BlockMap_noundo", "Covered")], q)
+        jobs += design_jobs("BlockMap", ["BlockMap"], ["BlockMap_big", "BlockMap_all"], [("BlockMap_noundo", "Covered")], q)
         for i in range(1 if q else 8):   # the real block map against that model: writes, short writes and truncations with exact free space
             jobs.append({"name": "bmap%d" % i, "module": "NfsTrace.tla", "cfg": "NfsTrace.cfg", "also_modules": ["BlockMapTrace"],
                          "driver": ["bmap", "-seed", str(seed * 100 + i), "-steps", "80" if q else "400"]})
